@@ -302,27 +302,38 @@ def rule_b3(ck, prog, S):
         ck.anchor_lost("C17-B3", "SCPI_GetNativeFormat")
     else:
         st = K.site(f, "probe", 0)
-        rets = [n for n in f.nodes.values() if n.k == "ReturnStmt" and n.ch]
         ok = False
         why = "unexpected shape"
-        if len(rets) == 1:
-            e = rets[0].child(0).strip_all_casts()
-            init = [fn_ for fn_ in f.nodes.values() if fn_.k == "InitListExpr"]
-            ival = C.const_of(init[0].ch[0]) if init and init[0].ch else None
-            if e.k == "ConditionalOperator":
-                c = e.child(0).strip_all_casts()
-                if c.k == "BinaryOperator" and c.get("op") == "==" and (c.child(0).strip_all_casts().get("path") or "").endswith(".c[0]"):
-                    k = C.const_of(c.child(1))
-                    t, el = C.const_of(e.child(1)), C.const_of(e.child(2))
-                    if ival is not None:
-                        msb = (ival >> 24) & 0xFF
-                        lsb = ival & 0xFF
-                        if k == msb and msb != lsb and t == ec.get("SCPI_FORMAT_BIGENDIAN") and el == ec.get("SCPI_FORMAT_LITTLEENDIAN"):
-                            ok = True
-                        elif k == lsb and msb != lsb and t == ec.get("SCPI_FORMAT_LITTLEENDIAN") and el == ec.get("SCPI_FORMAT_BIGENDIAN"):
-                            ok = True
-                        else:
-                            why = "byte 0 == 0x%02x of 0x%08x selects %s" % (k or 0, ival, t)
+        init = [fn_ for fn_ in f.nodes.values() if fn_.k == "InitListExpr"]
+        ival = C.const_of(init[0].ch[0]) if init and init[0].ch else None
+        # decision table of the probe, whatever its spelling (conditional operator, if/else, guard clause): on every path
+        # the test of the first byte in memory against a constant and the format returned
+        rows = []
+        try:
+            for ps in P.summarize(f):
+                first = None
+                for a_, pol in ps.facts:
+                    if isinstance(pol, tuple) or a_.k != "BinaryOperator" or a_.get("op") not in ("==", "!="):
+                        continue
+                    if (a_.child(0).strip_all_casts().get("path") or "").endswith(".c[0]") and C.const_of(a_.child(1)) is not None:
+                        first = (C.const_of(a_.child(1)), pol if a_["op"] == "==" else not pol)
+                rows.append((first, ps.ret.v if ps.ret is not None and ps.ret.kind == "const" else None))
+        except P.TooManyPaths:
+            rows = []
+        if ival is not None and len(rows) == 2 and all(r[0] is not None and r[1] is not None for r in rows):
+            msb, lsb = (ival >> 24) & 0xFF, ival & 0xFF
+            big, little = ec.get("SCPI_FORMAT_BIGENDIAN"), ec.get("SCPI_FORMAT_LITTLEENDIAN")
+            good = msb != lsb and {r[0][1] for r in rows} == {True, False}
+            for (k, eq), ret in rows:
+                if k == msb:
+                    good = good and ret == (big if eq else little)
+                elif k == lsb:
+                    good = good and ret == (little if eq else big)
+                else:
+                    good = False
+            ok = bool(good)
+            if not ok:
+                why = "first byte of 0x%08x: %s" % (ival, ["byte0 %s 0x%02x -> %s" % ("==" if eq else "!=", k, ret) for (k, eq), ret in rows])
         if ok:
             ck.holds("C17-B3", st, K.loc(f), "BIGENDIAN iff the first byte in memory is the most significant one")
         else:
